@@ -1,6 +1,7 @@
 package c11
 
 import (
+	"bytes"
 	"encoding/pem"
 	"fmt"
 	"reflect"
@@ -20,7 +21,8 @@ type TotalCase struct {
 	Src  int    `json:"src"`
 	Name string `json:"name,omitempty"`
 	Muts []Mut  `json:"muts,omitempty"`
-	PEM  bool   `json:"pem,omitempty"` // additionally wrap in a PEM "X509 CRL" block for the two PEM-aware entry points
+	PEM  int    `json:"pem,omitempty"` // PEM armour (see pemModes): fed to the two PEM-aware entry points instead of the DER, and as plain input to all twelve
+	PEMA int    `json:"pema,omitempty"` // position / variant parameter of the PEM mode
 	Raw  []byte `json:"raw,omitempty"` // when set, the base input (Src/Name ignored)
 }
 
@@ -81,7 +83,10 @@ func genTotal(t *rapid.T) TotalCase {
 		// the first edit happens inside the TLS encoding of the embedded SCT list
 		c.Muts = append([]Mut{{Op: mSCTList, A: rapid.IntRange(0, 1<<16).Draw(t, "scta")}}, c.Muts...)
 	}
-	c.PEM = rapid.IntRange(0, 15).Draw(t, "pem") == 0
+	if uni(t, "pem")%7 == 0 {
+		c.PEM = 1 + uni(t, "pemmode")%(len(pemModes)-1)
+		c.PEMA = rapid.IntRange(0, 1<<16).Draw(t, "pema")
+	}
 	return c
 }
 
@@ -261,11 +266,18 @@ func checkTotal(t *testing.T, c TotalCase) harness.Verdict {
 		return v
 	}
 	var pemIn []byte
-	if c.PEM {
-		pemIn = pemCRL(in)
-		v.Class("pem-wrapped")
+	if c.PEM > 0 {
+		pemIn = pemArmour(in, c.PEM, c.PEMA)
+		v.Class("pem:" + pemModes[c.PEM%len(pemModes)])
 	}
 	res := runAll(&v, in, pemIn)
+	if pemIn != nil { // PEM-looking text as the input of every entry point
+		for ep, r := range runAll(&v, pemIn, nil) {
+			if r != "fatal" {
+				v.Class("pem-text:" + ep + ":" + r)
+			}
+		}
+	}
 	v.Class("kind:" + kind)
 	v.Class(fmt.Sprintf("muts:%d", len(c.Muts)))
 	for _, a := range applied {
@@ -320,4 +332,44 @@ func normErr(err error) string {
 		b = b[:56]
 	}
 	return string(b)
+}
+
+var pemModes = []string{"none", "crl", "truncated", "no-end-line", "bad-base64", "end-label-differs", "bare-marker", "other-label", "marker-then-der", "marker-no-newline", "headers", "crl-then-junk", "lowercase-marker"}
+
+// pemArmour renders der as PEM-looking text: a proper "X509 CRL" block, or one of the ways such a block is
+// broken in the wild (truncation anywhere, missing or mismatching END line, damaged base64, the bare
+// marker, other labels, RFC 1421 headers, trailing junk).
+func pemArmour(der []byte, mode, a int) []byte {
+	good := pemCRL(der)
+	a = mix(a)
+	switch pemModes[mode%len(pemModes)] {
+	case "crl":
+		return good
+	case "truncated":
+		return good[:a%len(good)]
+	case "no-end-line":
+		return good[:bytes.LastIndex(good, []byte("-----END"))]
+	case "bad-base64":
+		b := append([]byte(nil), good...)
+		at := len("-----BEGIN X509 CRL-----\n") + a%max(1, len(b)-len("-----BEGIN X509 CRL-----\n-----END X509 CRL-----\n"))
+		b[at] = []byte{'!', '=', ' ', 0, '-', '\n'}[a%6]
+		return b
+	case "end-label-differs":
+		return bytes.Replace(good, []byte("-----END X509 CRL"), []byte("-----END CERTIFICATE"), 1)
+	case "bare-marker":
+		return [][]byte{[]byte("-----BEGIN X509 CRL"), []byte("-----BEGIN X509 CRL-----"), []byte("-----BEGIN X509 CRL-----\n"), []byte("-----BEGIN X509 CRL-----\n-----END X509 CRL-----\n")}[a%4]
+	case "other-label":
+		return pem.EncodeToMemory(&pem.Block{Type: []string{"CERTIFICATE", "X509 CRLX", "X509 CRL ", "PUBLIC KEY", ""}[a%5], Bytes: der})
+	case "marker-then-der":
+		return append([]byte("-----BEGIN X509 CRL-----\n"), der...)
+	case "marker-no-newline":
+		return append([]byte("-----BEGIN X509 CRL"), good[len("-----BEGIN X509 CRL"):][a%8:]...)
+	case "headers":
+		return pem.EncodeToMemory(&pem.Block{Type: "X509 CRL", Headers: map[string]string{"Proc-Type": "4,ENCRYPTED", "DEK-Info": "AES-128-CBC,00"}, Bytes: der})
+	case "crl-then-junk":
+		return append(append([]byte(nil), good...), good[:a%len(good)]...)
+	case "lowercase-marker":
+		return bytes.Replace(good, []byte("BEGIN X509 CRL"), []byte("begin x509 crl"), 1)
+	}
+	return good
 }
